@@ -25,11 +25,30 @@ pub struct Local {
 
 pub fn mk_local() -> Local {
     let sb = Sandbox::new();
-    let ctxs = (0..8).map(|i| Ctx::new(opts_of(i), &sb).expect("context")).collect();
+    // contexts 0..8: created with their options.  8 and 9: the English-on sets (without / with smart quotes) reached the
+    // way a front-end reaches them that keeps its configuration object: created under ANSI with English off, then
+    // every setter called on the SAME object (in a rotated order) and update-engine
+    let mut ctxs: Vec<Ctx> = (0..8).map(|i| Ctx::new(opts_of(i), &sb).expect("context")).collect();
+    for i in 8..N_CTX {
+        let target = opts_of(i);
+        let mut from = target;
+        from.ansi = true;
+        from.english = false;
+        let mut c = Ctx::new(from, &sb).expect("context");
+        c.update_with(target, &sb, crate::driver::UpdateMode::KeepAllRot(0, i == 9)).expect("update-engine");
+        ctxs.push(c);
+    }
     Local { sb, ctxs }
 }
 
+const N_CTX: usize = 10;
+
 fn opts_of(i: usize) -> Opts {
+    let i = match i % N_CTX {
+        8 => 1,
+        9 => 3,
+        k => k,
+    };
     let mut o = Opts::parse("s");
     o.english = i & 1 != 0;
     o.smart = i & 2 != 0;
@@ -200,7 +219,7 @@ fn case_json(c: &Case) -> Value {
 fn run_case(run: &Run, c: &Case, lo: &mut Local, st: &mut Stats) -> Result<(), Failure> {
     let user: HashMap<String, String> = c.user.iter().cloned().collect();
     if user.is_empty() {
-        let f = |l: &mut Local, s: &mut Stats| type_and_judge(run, &l.ctxs[c.optidx % 8], &c.text, &user, s, &|| case_json(c));
+        let f = |l: &mut Local, s: &mut Stats| type_and_judge(run, &l.ctxs[c.optidx % N_CTX], &c.text, &user, s, &|| case_json(c));
         with_fresh_retry(lo, mk_local, f, st)
     } else {
         // a user auto-correct file needs its own context
@@ -429,7 +448,7 @@ pub fn replay(run: &Run, case: &Value) -> Result<(), Failure> {
     let _ = &lo.sb;
     let user: HashMap<String, String> = c.user.iter().cloned().collect();
     if user.is_empty() {
-        type_and_judge(run, &lo.ctxs[c.optidx % 8], &c.text, &user, &mut Stats::new(), &|| case.clone())
+        type_and_judge(run, &lo.ctxs[c.optidx % N_CTX], &c.text, &user, &mut Stats::new(), &|| case.clone())
     } else {
         run_case(run, &c, &mut lo, &mut Stats::new())
     }
